@@ -540,6 +540,7 @@ func run(w *ev.W) {
 	}
 	w.Count("max_choice_depth", 0)
 	r.namedPrograms()
+	r.interference()
 	r.structFamily()
 	n := 0
 	enumerate(w, func(pc progCase) {
